@@ -21,7 +21,7 @@ HERE = os.path.dirname(os.path.abspath(__file__))
 ROOT = os.path.dirname(HERE)
 REPO = os.environ.get("VERIF_REPO", "/repo")
 GEN = os.path.join(ROOT, "lean", "HtpModel", "Gen")
-INCLUDED = {"htp_util.c", "htp_utf8_decoder.c", "htp_config.c", "htp_response.c"}
+INCLUDED = {"htp_util.c", "htp_utf8_decoder.c", "htp_config.c", "htp_response.c", "htp_request.c"}
 CFLAGS = ["-D_GNU_SOURCE", "-DHAVE_CONFIG_H", "-DLIBHTP_VERIF", "-I" + REPO, "-I" + os.path.join(REPO, "htp"), "-w", "-O0"]
 
 
